@@ -261,6 +261,19 @@ def check(ctx):
     sc = [n for n in ast.walk(lcu2) if isinstance(n, ast.DictComp) and "self.get_dependencies(k, all_hlg_keys)" in unparse(n.value)]
     ok = len(sc) >= 1 and all(unparse(n.generators[0].iter) in ("self.keys()", "self") and not n.generators[0].ifs for n in sc[:1])
     ctx.ob("REACH.layer-cull.all-keys-shortcut", lcu2, "len(keys) == len(self): dependencies are reported for k in self.keys()", ok, "" if ok else "only requested keys that live in the layer are reported: helper keys kept by the layer lose their external dependencies and the upstream layer is culled too far")
+    # ---------------- HighLevelGraph.cull asks EVERY layer (renamed layers no longer share a name with their keys)
+    hc = model.module("dask/highlevelgraph.py").func("HighLevelGraph.cull") if "model" in dir() else ctx.model.module("dask/highlevelgraph.py").func("HighLevelGraph.cull")
+    lc = [c for c in calls(hc, "layer.cull")]
+    ok = len(lc) == 1
+    if ok:
+        facts = [(unparse(e), pol) for e, pol in cfg_of(hc).facts(lc[0])]
+        ok = facts == [("keys_set", True)] and eqv(lc[0], "layer.cull(keys_set, all_ext_keys)")
+    ctx.ob("REACH.hlg-cull.every-layer", hc, "layer.cull(keys_set, all_ext_keys) runs for every layer whenever keys are still wanted (no name-based shortcut)", ok, "" if ok else "a layer is skipped without asking it: after one cull layers are renamed `<name>-<tok>` while their keys keep `<name>`, so a second cull drops the layer and everything below it")
+    # ---------------- optimize_blockwise: every pass of the fixed point protects the requested keys
+    ob_ = model.module("dask/blockwise.py").func("optimize_blockwise") if "model" in dir() else ctx.model.module("dask/blockwise.py").func("optimize_blockwise")
+    ps = [c for c in calls(ob_, "_optimize_blockwise")]
+    ok = len(ps) >= 2 and all(kwarg(c, "keys") is not None and eqv(kwarg(c, "keys"), "keys") for c in ps)
+    ctx.ob("ARG.blockwise-passes.keys", ob_, "every _optimize_blockwise(...) call of the fixed-point loop passes keys=keys", ok, "" if ok else "a later pass fuses a requested intermediate layer into its consumer: its keys vanish from the optimized graph")
 
 
 VARIANTS = [
